@@ -130,7 +130,9 @@ func TemplExpression(src string) (start, end int, err error) {
 			break
 		}
 	}
-	return 0, ep.End, nil
+	// The scanner reports an invalid byte as an ILLEGAL token whose literal is the three byte replacement
+	// character, so the end computed from the literal can lie beyond the source.
+	return 0, min(ep.End, len(src)), nil
 }
 
 func Expression(src string) (start, end int, err error) {
